@@ -178,6 +178,7 @@ struct StaticClass {
             if (large) { p.set("successor_same_data", 1); p.set("successor_procs", cfg.range(1, 20)); }
         }
         if (!scale && !scale19 && (g.prop == "C08" || g.prop == "C09" || g.prop == "C10" || g.prop == "C18" || g.prop == "C17") && cfg.chance(g.prop == "C18" ? 150 : 60)) p.set("pre_reject", 1);
+        { Rng use = sim::stream(g.run_seed, "usage2"); if (!scale && !scale19 && !large && !p.has("successor") && (g.prop == "C08" || g.prop == "C09" || g.prop == "C10" || g.prop == "C17") && use.chance(80)) p.set("copy_outlives", 1 + use.below(2)); }
         if (g.prop == "C19") { p.set("steps", draw_lifetime_steps(cfg)); p.set("qmax", scale19 ? 20000 : (large ? 300 : 400)); }
         if (g.prop == "C20") p.set("reserved_copies", cfg.range(1, 3));
         p.set("known_skip", 1); // queries inside the query-level predicate of a known finding are executed but not judged
@@ -293,6 +294,59 @@ struct StaticClass {
             if (!check_contract(data, q, r, Tr::eps_of(p), clauses, o)) { if (prop != "C17") break; else { scratch = Outcome(); } }
             if (!aux.check(*idx, data, q, r, o, st)) { if (prop != "C17") break; else { scratch = Outcome(); } }
             st.inc("queries");
+        }
+        if (p.get_u("copy_outlives", 0) && n >= 4 && !queries.empty() && (out.ok || prop == "C17")) {
+            // History step: a copy is taken, then the source is overwritten with another index (or destroyed); the copy must
+            // keep answering for the original keys (cached pointers or iterators into the source would now dangle)
+            if constexpr (can_copy_construct<Index>) {
+                Index *copy = new Index(*idx);
+                std::vector<K> data2;
+                for (size_t i = 0; i < n; ++i) if ((i & 1) || i + 1 == n) data2.push_back(data[i]);
+                bool overwritten = false;
+                if constexpr (can_copy_assign<Index>) {
+                    if (p.get_u("copy_outlives", 0) == 2) {
+                        sim::begin_run(env);
+                        Index *other = nullptr;
+                        try { other = Tr::build(data2); } catch (const std::exception &) {}
+                        sim::end_run();
+                        if (other) { *idx = *other; delete other; overwritten = true; }
+                    }
+                }
+                if (!overwritten) { delete idx; idx = nullptr; }
+                st.inc("copy_outlives_runs");
+                typename Tr::Aux auxc(*copy, data);
+                for (size_t qi = queries.size(); qi-- > 0;) {
+                    K q = queries[qi];
+                    Approx r = Tr::search(*copy, q);
+                    tr.add(r.pos); tr.add(r.lo); tr.add(r.hi);
+                    if (auxc.known_affected(q)) { if (known_skip) continue; }
+                    if (!check_contract(data, q, r, Tr::eps_of(p), clauses, o) || !auxc.check(*copy, data, q, r, o, st)) {
+                        if (prop == "C17") { scratch = Outcome(); continue; }
+                        o.detail = "copy whose source was overwritten or destroyed: " + o.detail;
+                        break;
+                    }
+                }
+                delete copy;
+                if (!idx) { out.trace_hash = tr.h; return out; }
+                if (overwritten) {
+                    // ... and the assigned-to object must answer for the keys of the index that was assigned to it
+                    if (out.ok || prop == "C17") {
+                        typename Tr::Aux auxa(*idx, data2);
+                        for (size_t qi = 0; qi < queries.size(); ++qi) {
+                            K q = queries[qi];
+                            Approx r = Tr::search(*idx, q);
+                            tr.add(r.pos);
+                            if (auxa.known_affected(q)) { if (known_skip) continue; }
+                            if (!check_contract(data2, q, r, Tr::eps_of(p), clauses, o) || !auxa.check(*idx, data2, q, r, o, st)) {
+                                if (prop == "C17") { scratch = Outcome(); continue; }
+                                o.detail = "index that was copy-assigned onto an already built one: " + o.detail;
+                                break;
+                            }
+                        }
+                    }
+                    delete idx; out.trace_hash = tr.h; return out;
+                }
+            }
         }
         if (p.get_u("successor", 0) && n >= 4 && !queries.empty() && (out.ok || prop == "C17")) {
             // History step: the index is destroyed and a different one is created straight away (the allocator hands the
